@@ -35,6 +35,7 @@ type seqPlan struct {
 	nFuzz   int
 	nFrag   int
 	nHost   int
+	nLong   int
 	space   *qt.Space
 }
 
@@ -50,6 +51,7 @@ func newSeqPlan(tier string, fuzzQuick, fuzzThorough int) *seqPlan {
 	p.nTree = nBatches(p.space.Size())
 	p.nFuzz = fuzzQuick
 	p.nHost = 2
+	p.nLong = 8
 	p.nFrag = 6
 	if tier == "thorough" {
 		p.nFuzz = fuzzThorough
@@ -58,7 +60,7 @@ func newSeqPlan(tier string, fuzzQuick, fuzzThorough int) *seqPlan {
 	return p
 }
 
-func (p *seqPlan) total() int { return p.nSeq + p.nTree + p.nFuzz + p.nFrag + p.nHost }
+func (p *seqPlan) total() int { return p.nSeq + p.nTree + p.nFuzz + p.nFrag + p.nHost + p.nLong }
 
 // hostileInputs places a hostile string in every leaf position, raw, quoted and escaped.
 func hostileInputs(h string) []string {
@@ -90,6 +92,29 @@ func (p *seqPlan) each(ctx *core.Ctx, batch int, fn func(kind, in string)) {
 		lo, hi := batchRange(p.space.Size(), batch-p.nSeq)
 		for i := lo; i < hi; i++ {
 			fn("tree", qt.Print(p.space.At(i), qt.Style{}))
+		}
+	case batch >= p.nSeq+p.nTree+p.nFuzz+p.nFrag+p.nHost:
+		// long inputs: every scaling family at a few moderate sizes, and random deep trees with
+		// hostile leaves
+		which := batch - (p.nSeq + p.nTree + p.nFuzz + p.nFrag + p.nHost)
+		sizes := []int{100, 520, 1100}
+		for i, fam := range gen.Families {
+			if i%p.nLong != which {
+				continue
+			}
+			for _, n := range sizes {
+				if in := fam.Make(n); len(in) <= 8<<10 {
+					fn("long", in)
+				}
+			}
+		}
+		r := ctx.Rand("hostile-trees")
+		leaves := append(qt.FullLeaves(), qt.HostileLeaves(r, gen.HostileStrings, 40, true)...)
+		for i := 0; i < 400; i++ {
+			t := qt.RandomTree(r, leaves, 1+r.Intn(5))
+			if t.Size() <= 40 {
+				fn("hostile-tree", qt.Print(t, qt.Style{}))
+			}
 		}
 	case batch >= p.nSeq+p.nTree+p.nFuzz+p.nFrag:
 		which := batch - (p.nSeq + p.nTree + p.nFuzz + p.nFrag)
